@@ -36,8 +36,11 @@ def make_certificate(common_names=('alice',), eku=('client',)):
     if eku is not None:
         oids = []
         for e in eku:
-            oids.append(ExtendedKeyUsageOID.CLIENT_AUTH if e == 'client'
-                        else ExtendedKeyUsageOID.SERVER_AUTH)
+            oids.append({'client': ExtendedKeyUsageOID.CLIENT_AUTH,
+                         'server': ExtendedKeyUsageOID.SERVER_AUTH,
+                         'any': ExtendedKeyUsageOID.ANY_EXTENDED_KEY_USAGE,
+                         'email': ExtendedKeyUsageOID.EMAIL_PROTECTION,
+                         'codesign': ExtendedKeyUsageOID.CODE_SIGNING}[e])
         b = b.add_extension(x509.ExtendedKeyUsage(oids), critical=False)
     cert = b.sign(priv, hashes.SHA256())
     der = cert.public_bytes(serialization.Encoding.DER)
